@@ -144,6 +144,11 @@ pub struct Plan {
     /// every write to stderr fails with this errno (0 = off)
     #[serde(default)]
     pub stderr_errno: i32,
+    #[serde(default)]
+    pub stdout_errno: i32,
+    /// environment variables of the child (everything else is cleared)
+    #[serde(default)]
+    pub env: Vec<(String, String)>,
     /// (wall-clock read index, ns): the wall clock steps backwards at that read
     #[serde(default)]
     pub wall_back: Vec<(i64, i64)>,
@@ -164,6 +169,8 @@ impl Plan {
             maxevents: 100000,
             aslr: false,
             stderr_errno: 0,
+            stdout_errno: 0,
+            env: vec![],
             wall_back: vec![],
         }
     }
@@ -201,6 +208,9 @@ impl Plan {
         }
         if self.stderr_errno > 0 {
             s.push_str(&format!("stderrfail {}\n", self.stderr_errno));
+        }
+        if self.stdout_errno > 0 {
+            s.push_str(&format!("stdoutfail {}\n", self.stdout_errno));
         }
         for (i, ns) in &self.wall_back {
             s.push_str(&format!("rtback {i} {ns}\n"));
